@@ -97,6 +97,9 @@ Record param := {
   p_wfunc : bool;                (* the class defines a driver method write_<p> *)
   p_polled : bool;                (* has a read method with poll = True *)
   p_uninit : bool;                (* instance only: the "not initialized" readerror marker *)
+  p_takes : list str;             (* script of the driver method write_<p>: pending start values of these parameters are
+                                     taken over (popped from self.writeDict and written through their write_<q>), in
+                                     this order, like frappy.rwhandler.CommonWriteHandler does *)
 }.
 
 Definition upd_param (p : param) (dt : option dtype) (unit : str) (descr : option str) (ro nc : bool) (ex : expo)
@@ -104,7 +107,8 @@ Definition upd_param (p : param) (dt : option dtype) (unit : str) (descr : optio
   {| p_name := p_name p; p_iscmd := p_iscmd p; p_optional := p_optional p; p_predef := p_predef p;
      p_dt := dt; p_unit := unit; p_dtdefault := p_dtdefault p; p_descr := descr; p_readonly := ro; p_needscfg := nc;
      p_export := ex; p_visibility := vis; p_group := grp; p_default := dflt; p_value := val;
-     p_has_write := p_has_write p; p_wfunc := p_wfunc p; p_polled := p_polled p; p_uninit := uninit |}.
+     p_has_write := p_has_write p; p_wfunc := p_wfunc p; p_polled := p_polled p; p_uninit := uninit;
+     p_takes := p_takes p |}.
 Definition set_dt p d u := upd_param p (Some d) u (p_descr p) (p_readonly p) (p_needscfg p) (p_export p)
   (p_visibility p) (p_group p) (p_default p) (p_value p) (p_uninit p).
 Definition set_descr p x := upd_param p (p_dt p) (p_unit p) (Some x) (p_readonly p) (p_needscfg p) (p_export p)
@@ -508,24 +512,80 @@ Definition mod_init (C : cls) (c : cfg) : outcome :=
 (* ------------------------------------------------------------------ start-up part of the poll thread *)
 Inductive ev := EvWrite (n : str) (v : pyval) | EvInit | EvRead (n : str).
 
-(* the write wrapper validates first; a value that does not validate is logged and never reaches write_<p> *)
-Definition write_one (ps : list param) (nv : str * pyval) : list ev :=
-  match find_param (fst nv) ps with
-  | Some p => match p_dt p with
-              | Some d => match valid d (snd nv) with
-                          | Ok x => if p_wfunc p then [EvWrite (fst nv) x] else []
-                          | Err _ => []
-                          end
-              | None => []
-              end
-  | None => []
+(* self.writeDict while the poll thread works on it: a dict in insertion order; pop(name) *)
+Definition wdict := list (str * pyval).
+Fixpoint wpop (n : str) (w : wdict) : option (pyval * wdict) :=
+  match w with
+  | [] => None
+  | (k, x) :: r =>
+      if str_eqb n k then Some (x, r)
+      else match wpop n r with Some (y, r') => Some (y, (k, x) :: r') | None => None end
   end.
+
+(* result of a call of a write wrapper: hardware writes (driver methods entered) in call order, self.writeDict afterwards,
+   true = returned normally / false = raised *)
+Definition wres := (list ev * wdict * bool)%type.
+
+(* the script of a driver write method: for q in takes: if q in self.writeDict: self.write_q(self.writeDict.pop(q));
+   an exception of a nested write leaves the method (the remaining names stay pending) *)
+Fixpoint takes_loop (call : str -> pyval -> wdict -> wres) (qs : list str) (w : wdict) : wres :=
+  match qs with
+  | [] => ([], w, true)
+  | q :: r =>
+      match wpop q w with
+      | None => takes_loop call r w
+      | Some (vq, w1) =>
+          let '(e1, w2, ok) := call q vq w1 in
+          if ok then let '(e2, w3, ok2) := takes_loop call r w2 in (e1 ++ e2, w3, ok2)
+          else (e1, w2, false)
+      end
+  end.
+
+(* the write wrapper write_<n>(v): validates first (a value that does not validate raises and never reaches the driver
+   method), then the driver method: it is handed the validated value and then runs its take-over script; `call` is the
+   wrapper for the nested writes *)
+Definition wrapper (call : str -> pyval -> wdict -> wres) (ps : list param) (n : str) (v : pyval) (w : wdict) : wres :=
+  match find_param n ps with
+  | Some p => match p_dt p with
+              | Some d => match valid d v with
+                          | Ok x => if p_wfunc p
+                                    then let '(es, w', ok) := takes_loop call (p_takes p) w in (EvWrite n x :: es, w', ok)
+                                    else ([], w, true)
+                          | Err _ => ([], w, false)
+                          end
+              | None => ([], w, false)
+              end
+  | None => ([], w, false)
+  end.
+(* nesting depth is bounded by the number of pending entries (every nested call has popped one) *)
+Fixpoint wcall (fuel : nat) (ps : list param) (n : str) (v : pyval) (w : wdict) : wres :=
+  match fuel with
+  | 0 => ([], w, false)
+  | S f => wrapper (wcall f ps) ps n v w
+  end.
+
+(* writeInitParams: for pname in list(self.writeDict): value = self.writeDict.pop(pname, Done); if value is not Done:
+   write_<pname>(value) - the value is fetched at the time of use, entries consumed meanwhile are skipped; exceptions
+   are logged *)
+Fixpoint init_loop (ps : list param) (names : list str) (w : wdict) : list ev * wdict :=
+  match names with
+  | [] => ([], w)
+  | n :: r =>
+      match wpop n w with
+      | None => init_loop ps r w
+      | Some (v, w1) =>
+          let '(e, w2, _) := wcall (S (List.length w1)) ps n v w1 in
+          let '(e', w3) := init_loop ps r w2 in (e ++ e', w3)
+      end
+  end.
+Definition write_init (ps : list param) (w : wdict) : list ev * wdict := init_loop ps (map fst w) w.
+
 Definition polled_names (i : inst) : list str :=
   if i_enablepoll i then map p_name (filter (fun p => negb (p_iscmd p) && p_polled p) (i_params i)) else [].
 Definition has_thread (i : inst) : bool :=
   i_enablepoll i || match i_write i with [] => false | _ => true end.
 Definition startup (i : inst) : list ev :=
-  if has_thread i then flat_map (write_one (i_params i)) (i_write i) ++ [EvInit] ++ map EvRead (polled_names i)
+  if has_thread i then fst (write_init (i_params i) (i_write i)) ++ [EvInit] ++ map EvRead (polled_names i)
   else [].
 
 (* ------------------------------------------------------------------ config DSL: Mod(name, cls, description, kwds) *)
